@@ -297,6 +297,14 @@ private:
             }
 
         } // for
+
+        // Pixel data can address 2^bits_per_pixel palette entries whatever the header declares:
+        // make every index valid (colours the file does not declare are transparent black).
+        std::size_t const addressable = std::size_t(1) << (this->_info._bits_per_pixel < 8 ? this->_info._bits_per_pixel : 8);
+        if( this->_palette.size() < addressable )
+        {
+            this->_palette.resize( addressable, rgba8_pixel_t(0, 0, 0, 0));
+        }
     }
 
     template< typename View >
